@@ -28,6 +28,7 @@ func init() {
 	ruleText["R01.8"] = "in every run-time closure of a generator func(n *node) that stores into dest(f) (dest obtained from a gen* value generator applied to n itself), no return of a non-nil successor is reachable from the closure entry without passing such a store"
 	ruleText["R01.9"] = "in the range generator, each 'if isString(operand type) {...} else {...}' installs in its string arm a run-time closure that calls reflect.Value.Convert (byte length of the prefix): the key-value and key-only forms agree"
 	ruleText["R01.10"] = "in the range generator every store through the frame index of the value child (n.child[1].findex) is inside an if whose condition derives from n.child[1].ident != \"_\""
+	ruleText["R01.11"] = "in cfg, the condition guarding the statement that turns a define into a no-op because it redeclares the for/range loop variable mentions the source operand (src.ident / src.kind)"
 	ruleText["R01.6"] = "in the multiple-assignment closures of the assignment generator, no loop both evaluates a source generator and writes a destination, and the temporaries receive fresh copies (reflect.New(T).Elem() + Set), never the aliasing result of a source generator"
 }
 
@@ -61,6 +62,7 @@ func runC01(c *Config, r *Report) {
 	c01R8(ic, r, "R01.8", nil)
 	c01R9(ic, r)
 	c01R10(ic, r)
+	c01R11(ic, r)
 }
 
 // kindLabels returns the names of the nkind constants of a case clause.
